@@ -118,23 +118,53 @@ theorem merge_unique [Std.LawfulEqCmp cmp] (e0 e1 : Events α) (out : List α)
 
 omit [Std.TransCmp cmp] in
 /-- Errors: a repository unknown to both members is reported as such, with no
-items; a member that does not know the repository is otherwise ignored; any
-other error is delivered (member 0's first), after the items. -/
+items; a member that does not know the repository — it answered NAME_UNKNOWN and delivered nothing — is
+otherwise ignored; any other error is delivered (member 0's first), after the items. F34: a member that
+delivered items and THEN answered NAME_UNKNOWN (its repository vanished while it was being listed) has
+failed like any other: its error is delivered. -/
 theorem merge_errors (e0 e1 : Events α) :
     (isNameUnknown e0.err = true → isNameUnknown e1.err = true →
       mergeIter cmp e0 e1 = ⟨[], e0.err⟩) ∧
     (isNameUnknown e0.err = true → isNameUnknown e1.err = false →
-      (mergeIter cmp e0 e1).err = e1.err) ∧
+      (e0.items = [] → (mergeIter cmp e0 e1).err = e1.err) ∧
+      (e0.items ≠ [] → (mergeIter cmp e0 e1).err = e0.err)) ∧
     (isNameUnknown e0.err = false → isNameUnknown e1.err = true →
-      (mergeIter cmp e0 e1).err = e0.err) ∧
+      (∀ e, e0.err = some e → (mergeIter cmp e0 e1).err = some e) ∧
+      (e0.err = none → e1.items = [] → (mergeIter cmp e0 e1).err = none) ∧
+      (e0.err = none → e1.items ≠ [] → (mergeIter cmp e0 e1).err = e1.err)) ∧
     (isNameUnknown e0.err = false → isNameUnknown e1.err = false →
       (∀ e, e0.err = some e → (mergeIter cmp e0 e1).err = some e) ∧
       (e0.err = none → (mergeIter cmp e0 e1).err = e1.err)) := by
-  refine ⟨?_, ?_, ?_, ?_⟩ <;> intro h0 h1 <;> simp [mergeIter, h0, h1]
-  · cases h : e0.err <;> simp
+  refine ⟨?_, ?_, ?_, ?_⟩ <;> intro h0 h1
+  · simp [mergeIter, h0, h1]
   · constructor
-    · intro e he; simp [he]
-    · intro he; simp [he]
+    · intro hi; simp [mergeIter, h0, h1, hi]
+    · intro hi
+      cases hc : e0.err with
+      | none => rw [hc] at h0; simp [isNameUnknown] at h0
+      | some c => rw [hc] at h0; simp [mergeIter, h0, h1, hi, hc]
+  · refine ⟨?_, ?_, ?_⟩
+    · intro e he; rw [he] at h0; simp [mergeIter, h0, h1, he]
+    · intro he hi; rw [he] at h0; simp [mergeIter, h0, h1, he, hi]
+    · intro he hi; rw [he] at h0; simp [mergeIter, h0, h1, he, hi]
+  · constructor
+    · intro e he; rw [he] at h0; simp [mergeIter, h0, h1, he]
+    · intro he; rw [he] at h0; simp [mergeIter, h0, h1, he]
+
+omit [Std.TransCmp cmp] in
+/-- **Never a silently shortened union (F34).** If a member delivered at least one item and then an error —
+whatever the error, NAME_UNKNOWN included — the merged listing ends in an error. -/
+theorem merge_never_silently_short (e0 e1 : Events α)
+    (h : (e0.items ≠ [] ∧ e0.err.isSome = true) ∨ (e1.items ≠ [] ∧ e1.err.isSome = true)) :
+    (mergeIter cmp e0 e1).err.isSome = true := by
+  rcases h with ⟨hi, he⟩ | ⟨hi, he⟩
+  · obtain ⟨c, hc⟩ := Option.isSome_iff_exists.mp he
+    cases hn0 : isNameUnknown e0.err <;> cases hn1 : isNameUnknown e1.err <;>
+      (rw [hc] at hn0; simp [mergeIter, hn0, hn1, hi, hc])
+  · obtain ⟨c, hc⟩ := Option.isSome_iff_exists.mp he
+    cases hn0 : isNameUnknown e0.err <;> cases hn1 : isNameUnknown e1.err <;>
+      (rw [hc] at hn1; cases h0 : e0.err <;> (rw [h0] at hn0; simp_all [mergeIter, isNameUnknown]) <;>
+        (try (split <;> simp_all)))
 
 end lists
 
@@ -153,10 +183,13 @@ theorem consumer_stop {α} (accept : List (Ev α) → Bool) (e : Events α) (i :
 /-- `List UInt8` under core `compare` (= Go's `strings.Compare` on the bytes)
 meets the hypotheses of the listing theorems. -/
 example : StrictAsc cmpBytes (mergeIter cmpBytes ⟨[[2], [1], [2]], none⟩ ⟨[[3], [1]], some "NAME_UNKNOWN"⟩).items ∧
-    (mergeIter cmpBytes ⟨[[2], [1], [2]], none⟩ ⟨[[3], [1]], some "NAME_UNKNOWN"⟩) = ⟨[[1], [2], [3]], none⟩ := by
+    -- F34: the second member delivered items before its NAME_UNKNOWN, so the union ends with that error …
+    (mergeIter cmpBytes ⟨[[2], [1], [2]], none⟩ ⟨[[3], [1]], some "NAME_UNKNOWN"⟩) = ⟨[[1], [2], [3]], some "NAME_UNKNOWN"⟩ ∧
+    -- … while a member that delivered nothing simply does not know the repository
+    (mergeIter cmpBytes ⟨[[2], [1], [2]], none⟩ ⟨[], some "NAME_UNKNOWN"⟩) = ⟨[[1], [2]], none⟩ := by
   have : Std.TransCmp cmpBytes := inferInstanceAs (Std.TransCmp (compare : Bytes → Bytes → Ordering))
   have : Std.LawfulEqCmp cmpBytes := inferInstanceAs (Std.LawfulEqCmp (compare : Bytes → Bytes → Ordering))
-  exact ⟨(merge_sorted_union cmpBytes _ _ (by decide)).1, by decide⟩
+  exact ⟨(merge_sorted_union cmpBytes _ _ (by decide)).1, by decide, by decide⟩
 
 /-! ### 4. Writes -/
 
